@@ -63,38 +63,46 @@ def run_config(run, prop, name, consts, wd, caching, select=None, probe_filter=N
     t0 = time.time()
     gen = ST.generate(name, consts, wd)
     run.add_model(f"{name}{'+cache' if caching else ''}", gen, {k: (sorted(v) if isinstance(v, set) else v) for k, v in consts.items()})
-    calls_at, states = explore.parse_transitions(gen["json"])
-    del gen
+    index = gen.pop("index")
     spec = {"engine": "readonly", "kind": prop, "select": select}
-    _, confirmed, st, probed = explore.explore(consts, ST.base_state(consts), calls_at, states, probe=spec,
-                                               keep_records=False, caching=caching, probe_filter=probe_filter)
+    agg = {"bad": 0, "n": 0, "judge_s": 0.0, "chunks": 0, "sampled": False}
+
+    def probe_sink(probed):
+        recs = []
+        for pr in probed:
+            for r in pr["probes"]:
+                r["id"] = len(recs) + 1
+                r["path"] = pr["path"]
+                recs.append(r)
+        tj = time.time()
+        agg["chunks"] += 1
+        verdicts = judge(recs, wd, f"{name}-{agg['chunks']}")
+        agg["judge_s"] += time.time() - tj
+        for v in verdicts:
+            r = recs[v["id"] - 1]
+            agg["bad"] += 1
+            run.violation(f"{RO.ro_class(r)}{'|cache' if caching else ''}|{'+'.join(sorted(v['fail']))}",
+                          f"{r['op']} ({r['cb']} k={r['k']}) violates {'+'.join(sorted(v['fail']))}",
+                          {"kind": r["kind"], "config": name, "caching": caching,
+                           "consts": {k: (sorted(x) if isinstance(x, set) else x) for k, x in consts.items()},
+                           "path": r["path"], "op": r["op"], "cb": r["cb"], "k": r["k"], "fail": v["fail"], "detail": v.get("exp"),
+                           "clean": r["clean"][:400], "again": r["again"][:400]})
+        for r in recs:
+            run.count_class(RO.ro_class(r) + ("|cache" if caching else ""))
+        agg["n"] += len(recs)
+        run.traces += len(recs)
+        run.evaluations += len(recs)
+        if not agg["sampled"] and recs:
+            agg["sampled"] = True
+            r = recs[len(recs) // 2]
+            run.sample({"config": name, "caching": caching, "op": r["op"], "callback": r["cb"], "fault_at": r["k"],
+                        "outcome": r.get("outcome", r.get("faulted")), "pre_S": {k: r["pre"]["S"][k] for k in ("kind", "ends", "vl")}})
+
+    _, confirmed, st, _ = explore.explore(consts, ST.base_state(consts), index, index, probe=spec, keep_records=False,
+                                          caching=caching, probe_filter=probe_filter, probe_sink=probe_sink, probe_chunk=(400, 10**9))
     t1 = time.time()
-    recs = []
-    for pr in probed:
-        for r in pr["probes"]:
-            r["id"] = len(recs) + 1
-            r["path"] = pr["path"]
-            recs.append(r)
-    verdicts = judge(recs, wd, name)
-    t2 = time.time()
-    for v in verdicts:
-        r = recs[v["id"] - 1]
-        run.violation(f"{RO.ro_class(r)}{'|cache' if caching else ''}|{'+'.join(sorted(v['fail']))}",
-                      f"{r['op']} ({r['cb']} k={r['k']}) violates {'+'.join(sorted(v['fail']))}",
-                      {"kind": r["kind"], "config": name, "caching": caching,
-                       "consts": {k: (sorted(x) if isinstance(x, set) else x) for k, x in consts.items()},
-                       "path": r["path"], "op": r["op"], "cb": r["cb"], "k": r["k"], "fail": v["fail"], "detail": v.get("exp"),
-                       "clean": r["clean"][:400], "again": r["again"][:400]})
-    for r in recs:
-        run.count_class(RO.ro_class(r) + ("|cache" if caching else ""))
-    run.traces += len(recs)
-    run.evaluations += len(recs)
-    if recs:
-        r = recs[len(recs) // 2]
-        run.sample({"config": name, "caching": caching, "op": r["op"], "callback": r["cb"], "fault_at": r["k"],
-                    "outcome": r.get("outcome", r.get("faulted")), "pre_S": {k: r["pre"]["S"][k] for k in ("kind", "ends", "vl")}})
-    st.update({"experiments": len(recs), "failing": len(verdicts), "caching": caching,
-               "t_generate_execute_s": round(t1 - t0, 1), "t_judge_s": round(t2 - t1, 1)})
+    st.update({"experiments": agg["n"], "failing": agg["bad"], "caching": caching,
+               "t_total_s": round(t1 - t0, 1), "t_judge_s": round(agg["judge_s"], 1)})
     run.extra.setdefault("executions", []).append({"config": name, **st})
 
 
